@@ -1,6 +1,7 @@
 package engine
 
 import (
+	"encoding/binary"
 	"errors"
 	"fmt"
 	"hash/fnv"
@@ -217,12 +218,20 @@ func (ex *Exec) runConcurrent() {
 	}
 	var stableDeferred []func()
 	if ex.cfg.StableTask {
-		initial := [2]string{st.Stable["ck0"], st.Stable["ck1"]}
-		c.readersUp++
-		ex.sim.Go("stable", nil, func() {
-			defer func() { c.readersEnd++ }()
-			ex.concStable(6+ex.tape.Choose(14), initial, &stableDeferred)
-		})
+		// one or two stable-store clients, each with keys of its own (so each
+		// knows what its Gets must return) but running against one another as well
+		// as against the writer: two Sets / SetUint64s may be in flight at once
+		nclients := 1 + ex.tape.Choose(2)
+		for t := 0; t < nclients; t++ {
+			t := t
+			keys := [2]string{fmt.Sprintf("ck%d", 2*t), fmt.Sprintf("ck%d", 2*t+1)}
+			initial := [2]string{st.Stable[keys[0]], st.Stable[keys[1]]}
+			c.readersUp++
+			ex.sim.Go(fmt.Sprintf("stable%d", t), nil, func() {
+				defer func() { c.readersEnd++ }()
+				ex.concStable(6+ex.tape.Choose(14), keys, initial, &stableDeferred)
+			})
+		}
 	}
 	for ex.pc < len(ex.plan.Ops) && !ex.stop() {
 		i := ex.pc
@@ -256,19 +265,31 @@ func (ex *Exec) runConcurrent() {
 // rotations and truncations and with the readers. Expected value = this task's
 // latest acknowledged Set, else what the store held at the start. The
 // candidate-set oracle is updated by the main task after the join.
-func (ex *Exec) concStable(n int, initial [2]string, deferred *[]func()) {
+func (ex *Exec) concStable(n int, keys [2]string, initial [2]string, deferred *[]func()) {
 	expect := initial
 	for i := 0; i < n && !ex.stop(); i++ {
 		ki := ex.tape.Choose(2)
-		key := fmt.Sprintf("ck%d", ki)
+		key := keys[ki]
 		switch ex.tape.Choose(4) {
 		case 0, 1:
 			val := fmt.Sprintf("v%d", ex.nextID)
-			if ex.tape.Choose(4) == 0 {
+			how := ex.tape.Choose(4)
+			if how == 0 {
 				val = "" // Set(k, empty)
 			}
 			ex.nextID++
-			err := ex.callR(func() error { return ex.w.Set([]byte(key), []byte(val)) })
+			var err error
+			if how == 1 || how == 2 {
+				// SetUint64: the value goes through the WAL's own 8-byte encoding
+				u := ex.nextID*0x9e3779b97f4a7c15 + uint64(i)
+				var b [8]byte
+				binary.LittleEndian.PutUint64(b[:], u)
+				val = string(b[:])
+				err = ex.callR(func() error { return ex.w.SetUint64([]byte(key), u) })
+				ex.probes.Add("concurrent_stable_setuint64", 1)
+			} else {
+				err = ex.callR(func() error { return ex.w.Set([]byte(key), []byte(val)) })
+			}
 			if ex.stop() {
 				return
 			}
@@ -395,6 +416,25 @@ func (ex *Exec) checkHistory() {
 				ok = false
 				if op.ErrStr != "" {
 					why = fmt.Sprintf("an entry that stayed in the log throughout the read was not returned: %s", op.ErrStr)
+				}
+			}
+		}
+		if !ok && op.Kind == "get" && op.Found {
+			// C12: was the returned log ever stored at that index, in any state of the
+			// whole history? If not, this is not a question of timing: the read was
+			// assembled from bytes that are not this entry's (a recycled buffer)
+			ever := false
+			for k := range c.versions {
+				s := c.versions[k].st
+				if e := s.Ent[op.Idx]; e != nil && !s.Empty() && op.Idx >= s.First && op.Idx <= s.Last && model.DiffLog(e.Log(), op.Log) == "" {
+					ever = true
+					break
+				}
+			}
+			if !ever {
+				ex.violate("no-aliasing", "concurrent-read-never-stored", "reader %d GetLog(%d) [events %d..%d] returned a log (index %d, id %x) that was never stored at that index in any state of the history", op.Client, op.Idx, op.Call, op.Ret, op.Log.Index, model.IDOf(op.Log))
+				if ex.stop() {
+					return
 				}
 			}
 		}
